@@ -27,7 +27,13 @@ InDomain(in, obs) ==
 Conforms(in, obs) ==
   /\ "panic" \notin DOMAIN obs
   /\ IF RelTool(in) THEN RelToolOK(in, obs)
-     ELSE IF RootDir(in) THEN obs.nexec = 1 /\ obs.exit = 0 /\ obs.argv = << <<47>> >> /\ (in.execdir => obs.cwd = <<47>>)
+     ELSE IF RootDir(in) THEN
+          /\ obs.nexec = 1 /\ obs.exit = 0
+          /\ IF "start" \in DOMAIN in /\ in.start # "/"
+             THEN \* /usr (also spelled /usr/ or //usr): run from /, as ./usr; without -execdir the path as given
+                  IF in.execdir THEN obs.cwd = <<47>> /\ obs.argv = << <<46, 47, 117, 115, 114>> >>
+                  ELSE Len(obs.argv) = 1
+             ELSE obs.argv = << <<47>> >> /\ (in.execdir => obs.cwd = <<47>>)
      ELSE IF in.mode = "single"
      THEN LET r == SingleExecRun(in.tree, CfgOf(in), in.roots, in.pre, in.template, in.execdir, in.script, in.nocmd) IN
           /\ obs.execs = r.execs /\ obs.truth = r.truth /\ obs.exit = r.exit
